@@ -141,6 +141,13 @@ def _client_main(sim, rr: RunRecord, ci: int, cspec: dict, shared: dict):
                     c, d = comp.compile(Circuit(1), [p], request_data=True,
                                         logging_level=30)
                     val = ('value', d['out'] if 'out' in d else None)
+                elif k == 'compile_wf':
+                    from dst.oracles import c11
+                    from dst.workload import passes as P
+                    circ = P.build_circuit(op['circ'])
+                    c, d = comp.compile(circ, P.build(op['wf']),
+                                        request_data=True, logging_level=30)
+                    val = ('passres', c11.summarize(c, d))
                 elif k == 'submit':
                     tid = comp.submit(Circuit(1), [TreePass(op['prog'])],
                                       request_data=True, logging_level=30)
